@@ -338,13 +338,14 @@ fn run_networks(ctx: &RunCtx, report: &mut Report) {
 // (B) real Rosomaxa on the vector example, observed through NetworkState
 
 fn run_rosomaxa(ctx: &RunCtx, report: &mut Report) {
-    let node_sizes = [1usize, 2];
-    let jobs: Vec<(usize, usize, u64)> =
-        (0..FAMILIES).flat_map(|f| node_sizes.iter().flat_map(move |n| (0..ctx.tier.pick(2u64, 4)).map(move |p| (f, *n, p)))).collect();
+    // (node size, elite size): node capacity below, equal to and above the elite size
+    let sizes = [(1usize, 2usize), (2, 2), (3, 2), (3, 1), (5, 2)];
+    let jobs: Vec<(usize, (usize, usize), u64)> =
+        (0..FAMILIES).flat_map(|f| sizes.iter().flat_map(move |n| (0..ctx.tier.pick(2u64, 4)).map(move |p| (f, *n, p)))).collect();
     let parts = par_map(ctx.threads, jobs.len(), |j| {
-        let (family, node_size, policy) = jobs[j];
+        let (family, (node_size, elite_size), policy) = jobs[j];
         let mut r = Report::new("model_checking");
-        let scen = json!({"part": "rosomaxa", "family": family, "node_size": node_size, "policy": policy});
+        let scen = json!({"part": "rosomaxa", "family": family, "node_size": node_size, "elite_size": elite_size, "policy": policy});
         let fallback = if policy == 0 { Fallback::Default } else { Fallback::Stream(policy) };
         let random: Arc<dyn Random> = Arc::new(ScriptedRandom::new(vec![], fallback));
         reseed(policy);
@@ -355,7 +356,7 @@ fn run_rosomaxa(ctx: &RunCtx, report: &mut Report) {
             let config = RosomaxaConfig {
                 initial_size: 4,
                 selection_size: 4,
-                elite_size: 2,
+                elite_size,
                 node_size,
                 spread_factor: 0.75,
                 distribution_factor: 0.9,
@@ -402,9 +403,9 @@ fn run_rosomaxa(ctx: &RunCtx, report: &mut Report) {
                     if !state.mse.is_finite() {
                         errs.push(("network-measure-not-finite".to_string(), format!("mse={}", state.mse)));
                     }
-                    if pop.size() > 2 {
-                        errs.push(("elite-bound".to_string(), format!("elite size {}", pop.size())));
-                    }
+                }
+                if pop.size() > elite_size || pop.ranked().count() > elite_size {
+                    errs.push(("elite-bound".to_string(), format!("elite holds {} individuals, elite_size={elite_size} (node_size={node_size}) at step {step}", pop.size())));
                 }
             }
             Ok(errs)
